@@ -339,6 +339,7 @@ class TapExecutor(Executor):
         # a request-coalescing delegate: every second submit() is answered with the previous future if that is still not done
         # (returning the same Future object from two submit() calls is unusual but legal for an Executor)
         self.coalesce = coalesce
+        self.shutdown_raises = False
 
     def submit(self, fn, *args, **kwargs):
         w = self.w
@@ -365,7 +366,11 @@ class TapExecutor(Executor):
     def shutdown(self, wait=True, **kwargs):
         self.shutdown_calls.append((wait, dict(kwargs)))
         self.w.rec("tap_shutdown", tap=self.name, wait=wait, kwargs=jsonable(kwargs))
-        return self.inner.shutdown(wait, **kwargs)
+        r = self.inner.shutdown(wait, **kwargs)
+        if self.shutdown_raises:
+            # (what a thread pool does when shutdown(wait=True) reaches it from one of its own workers)
+            raise RuntimeError("cannot join current thread")
+        return r
 
 
 class Fn(object):
@@ -734,6 +739,7 @@ class World(object):
         for i, layer in enumerate(spec.get("layers", [])):
             if layer.get("tap"):
                 ex = TapExecutor(self, "%s.tap%d" % (name, i), ex, coalesce=bool(layer.get("coalesce")))
+                ex.shutdown_raises = bool(layer.get("delegate_shutdown_raises"))
                 self.exs[ex.name] = [ex]
             if spec.get("methods"):
                 ex = self.add_layer_method(ex, layer, "%s.L%d" % (name, i))
